@@ -2,6 +2,7 @@
 package main
 
 import (
+	"rscheck/rules/c01"
 	"rscheck/driver"
 	"rscheck/rules/c09"
 	"rscheck/rules/c18"
@@ -10,6 +11,7 @@ import (
 
 func main() {
 	driver.Main([]driver.PropDef{
+		c01.Def,
 		c09.Def,
 		c18.Def,
 		c19.Def,
